@@ -85,6 +85,28 @@ class ScriptWorld(object):
         raise KeyError(letter)
 
 
+TEXT = {
+    "A": ["(assert a)"], "B": ["(assert (or (not a) b))"], "C3": ["(assert (< x y))"],
+    "S0": ["(assert-soft c)"], "Sg": ["(assert-soft d :weight 2 :id g)", "(assert-soft d :id g :weight 2)"],
+    "Sg2": ["(assert-soft e :id g :weight 3)"], "Sh": ["(assert-soft e :id h)"],
+    "P0": ["(push 0)"], "P1": ["(push 1)", "(push)"], "P2": ["(push 2)"],
+    "Q0": ["(pop 0)"], "Q1": ["(pop 1)", "(pop)"], "Q2": ["(pop 2)"],
+    "R": ["(reset-assertions)"], "K": ["(check-sat)"],
+    "Mi": ["(minimize x :id o1)"], "Ma": ["(maximize v :signed)"], "MM": ["(minmax v w)"],
+}
+DECLS = ("(declare-fun a () Bool)(declare-fun b () Bool)(declare-const c Bool)(declare-fun d () Bool)"
+         "(declare-fun e () Bool)(declare-fun x () Int)(declare-fun y () Int)"
+         "(declare-fun v () (_ BitVec 4))(declare-fun w () (_ BitVec 4))\n")
+
+
+def script_from_text(world, seq, pick):
+    """The same sequence written as SMT-LIB text and read by the parser."""
+    from io import StringIO
+    from pysmt.smtlib.parser import SmtLibParser
+    text = DECLS + "\n".join(TEXT[l][pick % len(TEXT[l])] for l in seq) + "\n"
+    return SmtLibParser(world.env).get_script(StringIO(text)), text
+
+
 def legal(seq):
     """Legal in SMT-LIB: never pop more levels than are open."""
     depth = 0
@@ -139,20 +161,29 @@ def describe_goal(g):
     return ("goal", kind, terms, bool(g.signed))
 
 
-def check_script_sequence(run, world, seq):
+def check_script_sequence(run, world, seq, via_text=None):
     sc = SmtLibScript()
     events = []
     for l in seq:
         c, ev = world.command(l)
         sc.add_command(c)
         events.append(ev)
+    if via_text is not None:
+        with world.env:
+            try:
+                sc, text = script_from_text(world, seq, via_text)
+            except Exception as e:
+                run.fail({"subcheck": "script:text-rejected", "exc": type(e).__name__}, {"script": list(seq), "via_text": via_text},
+                         "the parser rejected the legal sequence %s: %s: %s" % (" ".join(seq), type(e).__name__, e))
+                return
+        run.cls("script:read-from-text")
     want_asserts, want_goals = reference_script(events)
     pops_after_assert = any(l[0] == "Q" and l != "Q0" for l in seq) and any(l in ("A", "B", "C3") for l in seq)
     soft_loses = any(l[0] == "S" for l in seq) and any(l[0] == "Q" and l != "Q0" for l in seq)
-    run.case(key="s:" + ",".join(seq), nontrivial=pops_after_assert or soft_loses or ("R" in seq and any(l[0] == "P" for l in seq)))
+    run.case(key=("s:" if via_text is None else "t%d:" % via_text) + ",".join(seq), nontrivial=pops_after_assert or soft_loses or ("R" in seq and any(l[0] == "P" for l in seq)))
     if soft_loses:
         run.cls("script:soft-and-pop")
-    case = {"script": list(seq)}
+    case = {"script": list(seq), "via_text": via_text}
     with world.env:
         try:
             f, goals = sc.get_last_formula(return_optimizations=True)
@@ -204,6 +235,7 @@ def shard_script_exhaustive(shard, nshards, maxlen):
             if not legal(seq):
                 continue
             check_script_sequence(run, world, seq)
+            check_script_sequence(run, world, seq, via_text=(idx // nshards) % 2)
     run.cls("script:exhaustive-sequences", run.evaluations)
     return run
 
@@ -227,7 +259,7 @@ def shard_script_sampled(shard, seed, n):
             elif l == "R":
                 depth = 0
             seq.append(l)
-        check_script_sequence(run, world, tuple(seq))
+        check_script_sequence(run, world, tuple(seq), via_text=rnd.choice([None, 0, 1]))
         run.cls("script:sampled-long")
     drive(body, st.randoms(use_true_random=True), n, derive_seed(seed, "c16s", shard))
     return run
@@ -397,7 +429,7 @@ def replay(rec):
     run = Run(PID, known=[])
     c = rec["case"]
     if "script" in c:
-        check_script_sequence(run, ScriptWorld(), tuple(c["script"]))
+        check_script_sequence(run, ScriptWorld(), tuple(c["script"]), via_text=c.get("via_text"))
     else:
         check_solver_sequence(run, tuple(c["solver"]))
     if run.violations:
